@@ -102,6 +102,9 @@ SHARE = [
     (r"^c09_written_disconnect$", ["C07"]),
     (r"^c09_written_publish_p0s0$", ["C18"]),
     (r"^c06_bind$", ["C04"]),
+    (r"^c04_session_present$", ["C06"]),
+    (r"^c04_current_k[13]_preservenothing_q2$", ["C01"]),
+    (r"^c04_close_pendingack$", ["C01"]),
     (r"^c06_alloc$", ["C11"]),
     (r"^c05_session_clears_inbound_set$", ["C06"]),
     (r"^c02_publish5_alias_", ["C17"]),
